@@ -57,6 +57,7 @@ type seqOp struct {
 	IL       int64  `json:"il"`
 	PL       int64  `json:"pl"`
 	N        int    `json:"n"`
+	Mark     string `json:"mark"`
 }
 
 type seqScen struct {
@@ -452,6 +453,7 @@ func (r *seqRun) run(base string) error {
 				ev["r"], ev["removed"] = errStr(err), removed
 			case "flush":
 				ev["r"] = errStr(r.st.Flush())
+				ev["mark"] = op.Mark
 				quiescent = true
 			case "iter":
 				pairs := [][2]int{}
@@ -502,6 +504,39 @@ func (r *seqRun) run(base string) error {
 				recl, err := mp.GC(deadlineCtx(op.Deadline), op.LowUse)
 				ev["gcerr"], ev["reclaimed"] = errStr(err), recl
 				quiescent = true
+			case "gcfix":
+				// n rounds of (primary GC, index GC, flush) on an otherwise idle store; after every
+				// round the directory is fingerprinted (names, sizes, content hashes, newest mtime)
+				rounds := []any{}
+				mp, _ := r.st.Primary().(*mhprimary.MultihashPrimary)
+				for i := 0; i < op.N; i++ {
+					if mp != nil {
+						mp.GC(context.Background(), op.LowUse)
+					}
+					r.st.Index().VerifGC(context.Background(), op.ScanFree)
+					r.st.Flush()
+					dg := dirDigest(r.dir)
+					names := make([]string, 0, len(dg))
+					for k := range dg {
+						names = append(names, k)
+					}
+					sort.Strings(names)
+					h := sha1.New()
+					var newest int64
+					for _, k := range names {
+						fmt.Fprintf(h, "%s=%v;", k, dg[k])
+						if k == "index.free" {
+							continue // recreated by every hand-over (see DESIGN.md C11)
+						}
+						if fi, err := os.Stat(filepath.Join(r.dir, k)); err == nil && fi.ModTime().UnixNano() > newest {
+							newest = fi.ModTime().UnixNano()
+						}
+					}
+					rounds = append(rounds, map[string]any{"dg": hex.EncodeToString(h.Sum(nil)[:8]), "mt": fmt.Sprint(newest)})
+					time.Sleep(2 * time.Millisecond)
+				}
+				ev["rounds"] = rounds
+				quiescent = true
 			case "reopen", "openwrong":
 				r.reopen(op, ev)
 				quiescent = true
@@ -517,9 +552,9 @@ func (r *seqRun) run(base string) error {
 		} else {
 			ev["pr"], ev["prerr"] = []any{}, ""
 		}
-		if c.Sizes && r.st != nil && (op.Op == "idxgc" || op.Op == "prigc" || op.Op == "flush") {
+		if c.Sizes && r.st != nil && pan == "" {
 			ss, err := r.st.StorageSize()
-			ev["ss"], ev["sserr"], ev["files"] = ss, errStr(err), dirSizes(r.dir)
+			ev["ss"], ev["sserr"] = ss, errStr(err)
 		}
 		if c.Proj && quiescent && r.st != nil && pan == "" {
 			ev["st"] = r.projection()
